@@ -4,3 +4,88 @@ package schedulerplugin
 func VerifC02_q_sticky() {
 	vpReincarnation(vpScenarioOpts{prop: "C02", topos: []int{0, 1}, kinds: []int{vpKindSts, vpKindDp}, earlySteps: 1, lateSteps: 1, nodes: []string{"n1", "n5", "n2", "n3"}})
 }
+
+
+// BOUND: topology 1 (4 IPs, two node subnets); a deployment with replicas 1 or 2 whose pods use a reserving policy (immutable, never) or a named pool p1 without size; all replicas bound; then a surge rolling update of one pod: the replacement is created and filtered before or after the old pod is deleted and its event handled (either order, a rejected filter is retried after the event); the replacement must be bound with an IP the deployment already held and the deployment never holds more IPs than replicas
+func VerifC02_q_rollingUpdate() {
+	w := vpNewWorld(1, false)
+	if err := w.configure(); err != nil {
+		return
+	}
+	replicas := nondetChoice(2) + 1
+	w.setDeployment(int32(replicas))
+	policy, pool := "", ""
+	switch nondetChoice(3) {
+	case 0:
+		policy = "immutable"
+	case 1:
+		policy = "never"
+	case 2:
+		pool = "p1"
+	}
+	prefix := "dp_ns_app_"
+	if pool != "" {
+		prefix = "pool__p1_"
+	}
+	count := func() int {
+		n := 0
+		for _, e := range w.dump() {
+			if e.Allocated && vpHasPrefix(e.Key, prefix) {
+				n++
+			}
+		}
+		return n
+	}
+	held := map[string]bool{}
+	for i := 0; i < replicas; i++ {
+		name := vpPodNameOf(vpKindDp, i)
+		w.createPod(vpMakePod(name, "U"+name, vpKindDp, policy, pool, ""))
+		w.syncListers()
+		nodes, err := w.filter(name, "n1", "n2", "n3")
+		if err != nil || len(nodes) == 0 || w.bind(name, nodes[0]) != nil {
+			return
+		}
+		w.setRunning(name)
+		for _, ip := range vpBoundIPs(w.pods[name]) {
+			held[ip] = true
+		}
+	}
+	w.syncListers()
+	verifAssert("C02/app-ip-count", count() <= replicas, "the deployment holds more IPs than replicas after the initial rollout")
+	old := vpPodNameOf(vpKindDp, 0)
+	repl := vpPodNameOf(vpKindDp, 7)
+	w.createPod(vpMakePod(repl, "U"+repl, vpKindDp, policy, pool, ""))
+	w.syncListers()
+	var approved []string
+	endOld := func() {
+		w.deletePod(old)
+		w.syncListers()
+		for len(w.pending) > 0 {
+			_ = w.handleEvent(0)
+		}
+	}
+	if nondetBool() {
+		// surge: the replacement is filtered while the old pod still exists
+		approved, _ = w.filter(repl, "n1", "n2", "n3")
+		verifAssert("C02/app-ip-count", count() <= replicas, "filtering a replacement pod made the deployment hold more IPs than replicas")
+		endOld()
+	} else {
+		endOld()
+	}
+	if len(approved) == 0 {
+		approved, _ = w.filter(repl, "n1", "n2", "n3")
+	}
+	verifAssert("C02/app-ip-count", count() <= replicas, "the deployment holds more IPs than replicas during a rolling update")
+	if len(approved) == 0 {
+		return
+	}
+	if w.bind(repl, approved[nondetChoice(len(approved))]) != nil {
+		return
+	}
+	verifReach("replacement-bound")
+	for _, ip := range vpBoundIPs(w.pods[repl]) {
+		verifAssert("C02/replacement-takes-held-ip", held[ip], "the replacement pod of a deployment with a reserving policy / named pool was bound with a fresh IP instead of one the deployment held")
+	}
+	verifAssert("C02/app-ip-count", count() <= replicas, "the deployment holds more IPs than replicas after a rolling update")
+	w.checkAll("C02", "rolling update")
+}
